@@ -446,7 +446,7 @@ func (m *Machine) bytesTerm(v Value) (*Term, bool) {
 		if x.Nil {
 			return m.strLit(""), true
 		}
-		return x.T, true
+		return m.current(x), true
 	case *Term:
 		return x, true
 	case SliceV:
